@@ -15,7 +15,9 @@ ANCHORS = [("deap/gp.py", ["PrimitiveTree.__setitem__", "PrimitiveTree.height", 
                            "mutUniform", "mutNodeReplacement", "mutEphemeral", "mutInsert", "mutShrink",
                            "staticLimit"])]
 LEVEL = "proof"
-RULE = ("exhaustive part: every primitive set x generator (full, grow, half-and-half) x every min <= max in 0..6 x every "
+RULE = ("primitive sets: 4 loose, 8 strongly typed (subclass pairs, object-rooted, terminals-only type, strict-subclass "
+        "returning primitive) and 6 with the int/bool/float vocabulary registered in shuffled order; "
+        "exhaustive part: every primitive set x generator (full, grow, half-and-half) x every min <= max in 0..6 x every "
         "requestable type (sizes capped); then every operator (cxOnePoint, cxOnePointLeafBiased, mutUniform with the three "
         "replacement generators, mutNodeReplacement, mutEphemeral one/all, mutInsert, mutShrink), bare and wrapped by "
         "staticLimit(len | height), on trees from the real generators incl. single-node trees, with the recorded tape "
@@ -31,7 +33,10 @@ TRUSTED = ["CPython list slicing / slice assignment / defaultdict / issubclass (
 ASSUMPTIONS = ["primitive sets: every primitive has arity >= 1, every terminal arity 0; where a requested type has no "
                "terminal / no primitive, generate raises its documented IndexError and produces no tree (model: none)",
                "ephemeral generators draw their value with random.randint (so the value is on the tape)"]
-EXPLANATION = ("Theorems C11.* are proved for every primitive set satisfying the pool invariant established by _add, all "
+EXPLANATION = ("Closure theorems for every `.ok` result, and totality theorems (gen_total, cx_total, cxlb_total, mut*_total): on "
+               "well-formed inputs the model never ends in the fault `raised` (Python exception) or `fuel`, and returns on every "
+               "well-typed tape longer than an explicit bound. "
+               "Theorems C11.* are proved for every primitive set satisfying the pool invariant established by _add, all "
                "trees, all tapes (no size bounds); the correspondence ties Core/GpTree.lean to deap.gp by replaying the "
                "recorded random draws.")
 
@@ -333,10 +338,38 @@ def build_typedS():
     return ps
 
 
+def build_perm(k):
+    """the int/bool/float vocabulary registered in a shuffled ORDER (primitives and terminals interleaved, the
+    subtype possibly before the supertype), with varying program inputs"""
+    r = random.Random(7919 * (k + 1))
+    ins = [[bool], [], [int], [bool, int], [float, bool], [bool, float, int]][k % 6]
+    ret = [int, bool, float][k % 3]
+    ps = PS("perm%d" % k, True, ins, ret, [int, bool, float])
+    p = ps.pset
+    items = [("p", f_add, [int, int], int, "addI"), ("p", f_lt, [int, int], bool, "ltI"),
+             ("p", f_ite, [bool, int, int], int, "iteI"), ("p", f_not, [bool], bool, "notB"),
+             ("p", f_and, [bool, bool], bool, "andB"), ("p", f_id, [int], float, "i2f"),
+             ("p", f_mul, [float, float], float, "mulF"), ("p", f_id, [float], int, "f2i"),
+             ("p", f_ite, [bool, float, float], float, "iteF"), ("p", f_id, [int], bool, "nz"),
+             ("t", 1, int), ("t", True, bool), ("t", False, bool), ("t", 0.5, float), ("t", 3, int),
+             ("e", "EI", int), ("e", "EB", bool)]
+    r.shuffle(items)
+    for it in items:
+        if it[0] == "p":
+            p.addPrimitive(it[1], it[2], it[3], name=it[4])
+        elif it[0] == "t":
+            p.addTerminal(it[1], it[2])
+        else:
+            p.addEphemeralConstant(uniq(it[1]), _eph if it[2] is int else _eph2, it[2])
+    return ps
+
+
 BUILDERS = {"loose1": build_loose1, "loose0": build_loose0, "loose2": build_loose2, "unary": build_loose_unary,
             "typed1": build_typed1, "typed1f": lambda: build_typed1(float), "typed1b": lambda: build_typed1(bool),
             "typed2": build_typed2, "typed3": build_typed3, "typedobj": build_typedobj, "typedT": build_typedT,
             "typedS": build_typedS}
+for _k in range(6):
+    BUILDERS["perm%d" % _k] = (lambda k: (lambda: build_perm(k)))(_k)
 PSNAMES = sorted(BUILDERS)
 _cache = {}
 
